@@ -7,7 +7,7 @@ except Exception:
     sys.exit(0)
 ev.setdefault("coverage", {})["bounded"] = {
     "label": "BOUNDED stand-in for the clause 'emitted file type-checks against the varlink package'; never counted in obligations/discharged",
-    "status": status, "bound": "all type constructors to depth %s in alias / parameter / result / error-field position plus special cases (typeless and non-struct errors, '-' and upper case in the interface name, Go keywords as field names, backticks in comments, recursive aliases), plus collision probes: every package-level identifier the output derives from a member name that is itself a legal member name is added as a second member of each kind" % depth,
+    "status": status, "bound": "all type constructors to depth %s in alias / parameter / result / error-field position plus special cases (typeless and non-struct errors, '-' and upper case in the interface name, Go keywords as field names, backticks in comments, recursive aliases), plus collision probes: every package-level identifier the output derives from a member name that is itself a legal member name is added as a second member of each kind; for each description the package clause, VarlinkGetName() and VarlinkGetDescription() (constant-evaluated) are compared with the interface name and the description text" % depth,
     "descriptions": int(descs), "typechecked": int(tc), "failures": int(fails), "wall_s": float(secs or 0),
 }
 if int(fails) > 0:
